@@ -77,6 +77,10 @@ func intentionListToIntermediateRBACForm(
 	// Omit any lower-precedence intentions that share the same source.
 	intentions = removeSameSourceIntentions(intentions)
 
+	// Omit any lower-precedence intentions whose exact source is covered by
+	// the wildcard source of a higher-precedence intention.
+	intentions = removeShadowedSourceIntentions(intentions)
+
 	rbacIxns := make([]*rbacIntention, 0, len(intentions))
 	for _, ixn := range intentions {
 		// trustBundle is only applicable to imported services
@@ -885,6 +889,42 @@ func removeSameSourceIntentions(intentions structs.SimplifiedIntentions) structs
 	}
 
 	if !changed {
+		return intentions
+	}
+	return out
+}
+
+// removeShadowedSourceIntentions expects intentions sorted by descending
+// precedence and drops every intention whose exact source is covered by the
+// wildcard source of an earlier (higher precedence) intention with the same
+// peer and partition and a matching namespace. Precedence weighs the
+// destination before the source, so "* -> api" (8) outranks "web -> *" (6)
+// and decides for every caller the latter could match.
+func removeShadowedSourceIntentions(intentions structs.SimplifiedIntentions) structs.SimplifiedIntentions {
+	if len(intentions) < 2 {
+		return intentions
+	}
+
+	out := make(structs.SimplifiedIntentions, 0, len(intentions))
+	for _, ixn := range intentions {
+		src := ixn.SourceServiceName()
+		shadowed := false
+		for _, prev := range out {
+			psrc := prev.SourceServiceName()
+			if prev.SourcePeer == ixn.SourcePeer &&
+				psrc.PartitionOrDefault() == src.PartitionOrDefault() &&
+				psrc.Name == structs.WildcardSpecifier && src.Name != structs.WildcardSpecifier &&
+				(psrc.NamespaceOrDefault() == src.NamespaceOrDefault() || psrc.NamespaceOrDefault() == structs.WildcardSpecifier) {
+				shadowed = true
+				break
+			}
+		}
+		if !shadowed {
+			out = append(out, ixn)
+		}
+	}
+
+	if len(out) == len(intentions) {
 		return intentions
 	}
 	return out
